@@ -28,16 +28,23 @@ class WrapFS(LocalFileSystem):
         self.calls = []
         self._lock = threading.Lock()
         self.fired = []
+        self.per_name = {}
 
     def _enter(self, name, args):
         with self._lock:
             self.calls.append((name, str(args[0]) if args else ""))
             k = len(self.calls)
+            j = self.per_name[name] = self.per_name.get(name, 0) + 1
         if self.delay:
             d = self.delay(k, name)
             if d:
                 time.sleep(d)
-        kind = self.plan.get(k)
+        # a plan key is a global call number or (method name, j) = the j-th call of that method
+        kind = self.plan.get(k) or self.plan.get((name, j))
+        if kind == "stale" and name != "ls":
+            kind = None
+        if kind == "partial" and not (name == "open" and len(args) > 1 and "w" in str(args[1])):
+            kind = None
         if kind and (self.only is None or name in self.only):
             self.fired.append((k, name, kind, str(args[0]) if args else ""))
             return kind
